@@ -119,21 +119,42 @@ func hasClassSym(syms []string) bool {
 
 var stepCount uint64
 
+// stepHash is the running hash of the step trace of the current parse; symAt maps byte offsets of the current input to
+// 1-based symbol positions (the positions of the specification).
+var stepHash uint64
+var symAt []int
+
+// symPositions builds symAt for an input given as model symbols.
+func symPositions(syms []string) []int {
+	var at []int
+	for i, s := range syms {
+		n := len(s)
+		if x, ok := symBytes[s]; ok {
+			n = len(x)
+		}
+		for j := 0; j < n; j++ {
+			at = append(at, i+1)
+		}
+	}
+	return append(at, len(syms)+1)
+}
+
 type parseObs struct {
 	Acc   string     `json:"acc"` // yes no tree+error budget PANIC
 	Ast   *expr.Expr `json:"ast,omitempty"`
 	Cnt   uint64     `json:"cnt"`
+	Hash  uint64     `json:"h"`
 	Panic string     `json:"panic,omitempty"`
 	Err   string     `json:"err,omitempty"`
 }
 
 // realParse runs grammar.Parse with the given budget (0 = unlimited) and describes the result.
 func realParse(src []byte, max uint64) (o parseObs) {
-	stepCount = 0
+	stepCount, stepHash = 0, 0
 	defer func() {
-		o.Cnt = stepCount
+		o.Cnt, o.Hash = stepCount, stepHash
 		if r := recover(); r != nil {
-			o = parseObs{Acc: "PANIC", Panic: fmt.Sprint(r), Cnt: stepCount}
+			o = parseObs{Acc: "PANIC", Panic: fmt.Sprint(r), Cnt: stepCount, Hash: stepHash}
 		}
 	}()
 	var opts []grammar.Option
@@ -248,7 +269,7 @@ func cmdParse(args []string) error {
 	}
 	var lang, steps, shape, budget, round, specround []mm
 	by := map[string]int{}
-	n, unm, nb, sweeps := 0, 0, 0, 0
+	n, unm, nb, sweeps, traces := 0, 0, 0, 0, 0
 	var samples []interface{}
 	sc := bufio.NewScanner(f)
 	sc.Buffer(make([]byte, 1<<20), 1<<28)
@@ -260,6 +281,7 @@ func cmdParse(args []string) error {
 				Ast *expr.Expr `json:"ast"`
 			} `json:"obs"`
 			Cnt  uint64          `json:"cnt"`
+			H    *uint64         `json:"h"`
 			Bud  json.RawMessage `json:"bud"`
 			Seed int             `json:"seed"`
 			Rt   bool            `json:"rt"`
@@ -270,6 +292,7 @@ func cmdParse(args []string) error {
 		}
 		n++
 		src := bytesOf(c.Inp)
+		symAt = symPositions(c.Inp)
 		got := realParse(src, 0)
 		by[got.Acc]++
 		add := func(l *[]mm, what string, spec, impl interface{}) {
@@ -295,6 +318,12 @@ func cmdParse(args []string) error {
 			}
 			if got.Cnt != 0 && got.Cnt != c.Cnt {
 				add(&steps, "parser steps", c.Cnt, got.Cnt)
+			} else if got.Cnt != 0 && c.H != nil {
+				// same number of steps: the step sequences (kind of expression and position of every step) must be the same too
+				traces++
+				if got.Hash != *c.H {
+					add(&steps, "step trace (kind and position of every parseExpr call)", *c.H, got.Hash)
+				}
 			}
 		}
 		if c.Tree != nil || (c.Seed > 0 && c.Seed <= len(expect)) {
@@ -370,7 +399,7 @@ func cmdParse(args []string) error {
 	if err := sc.Err(); err != nil {
 		return err
 	}
-	out, _ := json.MarshalIndent(map[string]interface{}{"inputs": n, "unmodelled": unm, "byacc": by, "language": lang, "steps": steps, "shape": shape,
+	out, _ := json.MarshalIndent(map[string]interface{}{"inputs": n, "unmodelled": unm, "byacc": by, "language": lang, "steps": steps, "tracescompared": traces, "shape": shape,
 		"budget": budget, "budgetruns": nb, "samples": samples, "round": round, "specround": specround}, "", " ")
 	return os.WriteFile(*of, out, 0o644)
 }
